@@ -135,6 +135,34 @@ def main() -> int:
             w["what"] = "REGRESSION of a repaired defect: " + f["what"]
             witnesses.append(w)
             witness_keys.add(f["key"])
+    # regression corpus (committed under corpus/<prop>/, never written here): minimised inputs on which earlier changes of the
+    # implementation broke the property. They hold on the unchanged tree; one that fails is an ordinary violation.
+    n_corpus = n_corpus_err = 0
+    cdir = os.path.join(vlib.VERIF, "corpus", prop)
+    if os.path.isdir(cdir):
+        for fn in sorted(os.listdir(cdir)):
+            if not fn.endswith(".json"):
+                continue
+            try:
+                data = json.load(open(os.path.join(cdir, fn)))
+            except Exception:
+                continue
+            wit = data.get("witness", data)
+            if not isinstance(wit, dict) or (wit.get("key") in witness_keys):
+                continue
+            n_corpus += 1
+            try:
+                with contextlib.redirect_stdout(io.StringIO()):
+                    again = mod.replay(ctx, data)
+            except Exception:
+                n_corpus_err += 1
+                ctx.notes.append(f"replay of corpus input {fn} raised: " + traceback.format_exc()[-300:])
+                continue
+            if again:
+                w = dict(wit)
+                w["what"] = f"corpus input {fn}: " + str(wit.get("what", ""))
+                witnesses.append(w)
+                witness_keys.add(w.get("key"))
     new_w = [w for w in witnesses if w.get("key") not in known_keys]
 
     rc = 0
@@ -193,7 +221,8 @@ def main() -> int:
                                 for r in corr_reports],
             "witness_search": {"ran": bool(broken or ctx.thorough or getattr(mod, "ALWAYS_SEARCH", False)),
                                "witnesses": len(witnesses), "known": sorted(known_keys),
-                               "fixed_findings_replayed": n_fixed, "fixed_replay_errors": n_fixed_err},
+                               "fixed_findings_replayed": n_fixed, "fixed_replay_errors": n_fixed_err,
+                               "corpus_inputs_replayed": n_corpus, "corpus_replay_errors": n_corpus_err},
             "notes": ctx.notes,
         },
         "assumptions": list(getattr(mod, "ASSUMPTIONS", [])),
